@@ -30,6 +30,9 @@ func (p *pendingRPC) label() string {
 	if len(t) > 3 && t[0] == "heartbeat" {
 		t[3] = "T"
 	}
+	if n := len(t); n > 0 && strings.HasPrefix(t[n-1], "maxcommit=") {
+		t[n-1] = "maxcommit=T" // start ts + wall-clock time since the transaction started + safe window
+	}
 	return p.c.name + " " + strings.Join(t, " ")
 }
 
